@@ -171,10 +171,28 @@ func (c *fileCtx) passA() {
 			switch b := n.(type) {
 			case *ast.BlockStmt:
 				visitList(b.List)
+				// a goroutine coming back from time.Sleep runs concurrently with every
+				// other goroutine woken at the same simulated instant: make it a
+				// scheduling point
+				for _, st := range b.List {
+					if es, ok := st.(*ast.ExprStmt); ok {
+						if ce, ok := es.X.(*ast.CallExpr); ok && isSel(ce.Fun, "time", "Sleep") {
+							k++
+							eds = append(eds, edit{c.off(es.End()), c.off(es.End()), fmt.Sprintf("; verifSync(%q)", fmt.Sprintf("%s:%s#%d", c.name, fn, k))})
+							c.stats["sync"]++
+						}
+					}
+				}
 			case *ast.CaseClause:
 				visitList(b.Body)
 			case *ast.CommClause:
 				visitList(b.Body)
+				// same for a select that returns (timer or channel wake-up)
+				if b.Comm != nil {
+					k++
+					eds = append(eds, edit{c.off(b.Colon) + 1, c.off(b.Colon) + 1, fmt.Sprintf(" verifSync(%q); ", fmt.Sprintf("%s:%s#%d", c.name, fn, k))})
+					c.stats["sync"]++
+				}
 			case *ast.CallExpr:
 				repl := ""
 				switch {
